@@ -55,6 +55,7 @@ type PropertySpec struct {
 	ID        string
 	Harnesses []HarnessSpec
 	Outside   []string // what lies outside the claim
+	UsesEvalModel bool
 	Stubs     []string
 }
 
